@@ -228,13 +228,14 @@ Lemma myrsi_step_ok n k s v : (1 <= n)%nat -> length (my_q s) = Nat.min n k ->
   exists s', @myrsi_step R ROps n s v = Ok s' /\ length (my_q s') = Nat.min n (S k).
 Proof.
   intros Hn Hi. unfold myrsi_step.
-  destruct (match my_q s with [] => (v, v) | _ :: _ => (my_oldest s, my_lastval s) end) as [oldest lastval].
+  set (oldest := match my_q s with [] => v | _ :: _ => my_oldest s end). clearbody oldest.
   destruct (Nat.leb_spec n (length (my_q s))) as [Hf|Hf].
   - destruct (full_nonempty n (my_q s) Hn Hf) as [x [r Hq]]. rewrite Hq. cbn [pop_front bind].
     rewrite Hq in Hi, Hf.
-    destruct (sgtb x oldest); cbn [bind]; destruct (sgtb v lastval); myrsi_fin;
-      rewrite app_length; cbn [length] in *; lia.
-  - cbn [bind]. destruct (sgtb v lastval); myrsi_fin; apply len_push_notfull; assumption.
+    destruct (myrsi_sums (r ++ [v]) x s0 s0) as [cu cd]. myrsi_fin.
+    rewrite app_length; cbn [length] in *; lia.
+  - cbn [bind]. destruct (myrsi_sums (my_q s ++ [v]) oldest s0 s0) as [cu cd]. myrsi_fin.
+    apply len_push_notfull; assumption.
 Qed.
 
 Lemma myrsi_safe n : (1 <= n)%nat -> Safe (@myrsi_core R ROps n) (fun _ => True) (myrsi_I n).
@@ -405,50 +406,23 @@ Proof.
   intros Hw. revert r. induction q as [|x t IH]; intros r; cbn [rsiL]; [lra|].
   pose proof (lpart_nonneg w (x - r) Hw). pose proof (IH x). lra.
 Qed.
-Lemma last_indep (x : R) t a b : last (x :: t) a = last (x :: t) b.
-Proof. revert x. induction t as [|y t IH]; intros x; [reflexivity|]. cbn [last] in *. apply IH. Qed.
-Lemma last_cons (x : R) t r : last (x :: t) r = last t x.
-Proof. destruct t as [|y t]; [reflexivity|]. cbn [last]. apply (last_indep y t r x). Qed.
-Lemma rsiG_snoc w r q v : rsiG w r (q ++ [v]) = rsiG w r q + gpart w (v - last q r).
+(** the fold of [rsi_step] over the window computes these sums: it only ever divides by [w] *)
+Lemma rsi_sums_ok w q : w <> 0 -> forall prev g l,
+  @rsi_sums R ROps w q prev g l = Ok (g + rsiG w prev q, l + rsiL w prev q).
 Proof.
-  revert r. induction q as [|x t IH]; intros r.
-  - cbn [app rsiG last]. lra.
-  - cbn [app rsiG]. rewrite IH. rewrite (last_cons x t r). lra.
-Qed.
-Lemma rsiL_snoc w r q v : rsiL w r (q ++ [v]) = rsiL w r q + lpart w (v - last q r).
-Proof.
-  revert r. induction q as [|x t IH]; intros r.
-  - cbn [app rsiL last]. lra.
-  - cbn [app rsiL]. rewrite IH. rewrite (last_cons x t r). lra.
+  intros Hw. induction q as [|x t IH]; intros prev g l.
+  - cbn [rsi_sums rsiG rsiL]. f_equal. f_equal; lra.
+  - cbn [rsi_sums rsiG rsiL]. rewrite sgtb_R, s0_R. change (@ssub R ROps x prev) with (x - prev).
+    unfold gpart, lpart.
+    destruct (Rltb 0 (x - prev)); rewrite sdiv_R_ok by exact Hw; cbn [bind]; rewrite IH;
+      f_equal; f_equal; change (@sadd R ROps) with Rplus; change (@sabs R ROps) with Rabs; lra.
 Qed.
 
 Definition rsi_I (n k : nat) (s : @rsi_st R) : Prop :=
   length (rsi_q s) = Nat.min n k /\
-  rsi_gain s = rsiG (INR n) (rsi_oldref s) (rsi_q s) /\
-  rsi_loss s = rsiL (INR n) (rsi_oldref s) (rsi_q s) /\
-  rsi_lastval s = last (rsi_q s) (rsi_oldref s) /\
   ((k < n)%nat -> rsi_out s = None) /\ ((n <= k)%nat -> rsi_out s <> None).
 
-Lemma rsi_push_eq (w gain loss c : R) : w <> 0 ->
-  (if @sgtb R ROps c s0
-   then do d <- @sdiv R ROps c w; Ok (@sadd R ROps gain d, loss)
-   else do d <- @sdiv R ROps (@sabs R ROps c) w; Ok (gain, @sadd R ROps loss d))
-  = Ok (gain + gpart w c, loss + lpart w c).
-Proof.
-  intros Hw. rewrite sgtb_R, s0_R. unfold gpart, lpart.
-  destruct (Rltb 0 c); rewrite sdiv_R_ok by exact Hw; cbn [bind]; f_equal; f_equal;
-    change (@sadd R ROps) with Rplus; change (@sabs R ROps) with Rabs; lra.
-Qed.
-Lemma rsi_evict_eq (w gain loss c old : R) (t : list R) : w <> 0 ->
-  (if @sgtb R ROps c s0
-   then do d <- @sdiv R ROps c w; Ok (@ssub R ROps gain d, loss, old, t)
-   else do d <- @sdiv R ROps (@sabs R ROps c) w; Ok (gain, @ssub R ROps loss d, old, t))
-  = Ok (gain - gpart w c, loss - lpart w c, old, t).
-Proof.
-  intros Hw. rewrite sgtb_R, s0_R. unfold gpart, lpart.
-  destruct (Rltb 0 c); rewrite sdiv_R_ok by exact Hw; cbn [bind]; f_equal; f_equal; f_equal; f_equal;
-    change (@ssub R ROps) with Rminus; change (@sabs R ROps) with Rabs; lra.
-Qed.
+(** the ratio block: [loss <> 0], and [1 + gain/loss <> 0] because [gain >= 0], [loss >= 0] *)
 Lemma rsi_out_ok (gain loss : R) : 0 <= gain -> 0 <= loss -> exists out,
   (if @seqb R ROps loss s0 then Ok (@sofdec R ROps 100 0)
    else do rs <- @sdiv R ROps gain loss; do d <- @sdiv R ROps (sofdec 100 0) (@sadd R ROps s1 rs);
@@ -463,20 +437,16 @@ Proof.
   lra.
 Qed.
 
-Lemma rsi_tail n k (sout : option R) v g l oref q lastval : (1 <= n)%nat ->
-  g = rsiG (INR n) oref q -> l = rsiL (INR n) oref q -> lastval = last q oref ->
+Lemma rsi_tail n k (s : @rsi_st R) v oref q : (1 <= n)%nat ->
   length (q ++ [v]) = Nat.min n (S k) ->
-  ((k < n)%nat -> sout = None) ->
+  ((k < n)%nat -> rsi_out s = None) ->
   exists s' : @rsi_st R,
-    (do x0 <-
-       (if @sgtb R ROps (@ssub R ROps v lastval) s0
-        then do d <- @sdiv R ROps (@ssub R ROps v lastval) (INR n); Ok (@sadd R ROps g d, l)
-        else do d <- @sdiv R ROps (@sabs R ROps (@ssub R ROps v lastval)) (INR n); Ok (g, @sadd R ROps l d));
-     let (gain0, loss0) := x0 in
-     if (length (q ++ [v]) <? n)%nat
-     then Ok {| rsi_gain := gain0; rsi_loss := loss0; rsi_oldref := oref; rsi_lastval := v;
-                rsi_q := q ++ [v]; rsi_out := sout |}
+    (if (length (q ++ [v]) <? n)%nat
+     then Ok {| rsi_gain := rsi_gain s; rsi_loss := rsi_loss s; rsi_oldref := oref; rsi_lastval := v;
+                rsi_q := q ++ [v]; rsi_out := rsi_out s |}
      else
+      do x0 <- @rsi_sums R ROps (INR n) (q ++ [v]) oref s0 s0;
+      let (gain0, loss0) := x0 in
       do out <-
         (if @seqb R ROps loss0 s0 then Ok (@sofdec R ROps 100 0)
          else do rs <- @sdiv R ROps gain0 loss0;
@@ -484,57 +454,39 @@ Lemma rsi_tail n k (sout : option R) v g l oref q lastval : (1 <= n)%nat ->
       Ok {| rsi_gain := gain0; rsi_loss := loss0; rsi_oldref := oref; rsi_lastval := v;
             rsi_q := q ++ [v]; rsi_out := Some out |}) = Ok s' /\ rsi_I n (S k) s'.
 Proof.
-  intros Hn Hg Hl Hlv Hlen Ho1.
+  intros Hn Hlen Ho1.
   pose proof (INR_pos' n Hn) as Hw. assert (Hw0 : INR n <> 0) by lra.
-  rewrite (rsi_push_eq (INR n) g l (@ssub R ROps v lastval) Hw0). cbn [bind].
-  change (@ssub R ROps v lastval) with (v - lastval).
-  assert (HG : g + gpart (INR n) (v - lastval) = rsiG (INR n) oref (q ++ [v]))
-    by (rewrite rsiG_snoc, Hg, Hlv; reflexivity).
-  assert (HL : l + lpart (INR n) (v - lastval) = rsiL (INR n) oref (q ++ [v]))
-    by (rewrite rsiL_snoc, Hl, Hlv; reflexivity).
-  assert (Hlast : v = last (q ++ [v]) oref) by (rewrite last_last; reflexivity).
   destruct (Nat.ltb_spec (length (q ++ [v])) n) as [H|H].
-  - eexists. split; [reflexivity|]. unfold rsi_I.
-    cbn [rsi_q rsi_gain rsi_loss rsi_oldref rsi_lastval rsi_out].
+  - eexists. split; [reflexivity|]. unfold rsi_I. cbn [rsi_q rsi_out].
     repeat split; try assumption; [intros Hk; apply Ho1; lia | intros Hk; lia].
-  - destruct (rsi_out_ok (g + gpart (INR n) (v - lastval)) (l + lpart (INR n) (v - lastval))) as [out Hout].
-    + rewrite HG. apply rsiG_nonneg. exact Hw.
-    + rewrite HL. apply rsiL_nonneg. exact Hw.
-    + rewrite Hout. cbn [bind]. eexists. split; [reflexivity|]. unfold rsi_I.
-      cbn [rsi_q rsi_gain rsi_loss rsi_oldref rsi_lastval rsi_out].
+  - rewrite (rsi_sums_ok (INR n) (q ++ [v]) Hw0). cbn [bind]. rewrite s0_R.
+    destruct (rsi_out_ok (0 + rsiG (INR n) oref (q ++ [v])) (0 + rsiL (INR n) oref (q ++ [v]))) as [out Hout].
+    + pose proof (rsiG_nonneg (INR n) oref (q ++ [v]) Hw). lra.
+    + pose proof (rsiL_nonneg (INR n) oref (q ++ [v]) Hw). lra.
+    + rewrite s0_R in Hout. rewrite Hout. cbn [bind]. eexists. split; [reflexivity|]. unfold rsi_I.
+      cbn [rsi_q rsi_out].
       repeat split; try assumption; [intros Hk; lia | discriminate].
 Qed.
 
 Lemma rsi_step_ok n k s v : (1 <= n)%nat -> rsi_I n k s ->
   exists s', @rsi_step R ROps n s v = Ok s' /\ rsi_I n (S k) s'.
 Proof.
-  intros Hn [Hl [Hg [Hlo [Hlv [Ho1 Ho2]]]]]. unfold rsi_step. cbv zeta.
+  intros Hn [Hl [Ho1 Ho2]]. unfold rsi_step. cbv zeta.
   change (@sofnat R ROps n) with (INR n).
-  pose proof (INR_pos' n Hn) as Hw. assert (Hw0 : INR n <> 0) by lra.
-  destruct (match rsi_q s with [] => (v, v) | _ :: _ => (rsi_oldref s, rsi_lastval s) end)
-    as [oldref lastval] eqn:Hm.
-  assert (Hu : rsi_gain s = rsiG (INR n) oldref (rsi_q s) /\ rsi_loss s = rsiL (INR n) oldref (rsi_q s) /\
-               lastval = last (rsi_q s) oldref).
-  { destruct (rsi_q s) as [|x t] eqn:Eq; inversion Hm; subst oldref lastval.
-    - rewrite Hg, Hlo. cbn [rsiG rsiL last]. auto.
-    - auto. }
-  destruct Hu as [Hg' [Hlo' Hlv']]. clear Hm Hg Hlo Hlv.
+  set (oldref := match rsi_q s with [] => v | _ :: _ => rsi_oldref s end). clearbody oldref.
   destruct (Nat.leb_spec n (length (rsi_q s))) as [Hf|Hf].
-  - destruct (full_nonempty n (rsi_q s) Hn Hf) as [old [t Hq]]. rewrite Hq in *. cbn [front bind tl].
-    rewrite (rsi_evict_eq (INR n) (rsi_gain s) (rsi_loss s) (@ssub R ROps old oldref) old t Hw0). cbn [bind].
-    change (@ssub R ROps old oldref) with (old - oldref).
-    cbn [rsiG rsiL] in Hg', Hlo'. rewrite (last_cons old t oldref) in Hlv'.
-    apply rsi_tail; try assumption; try lra.
-    + rewrite app_length. cbn [length] in *. lia.
+  - destruct (full_nonempty n (rsi_q s) Hn Hf) as [old [t Hq]]. rewrite Hq in *. cbn [pop_front bind].
+    apply rsi_tail; try assumption.
+    rewrite app_length. cbn [length] in *. lia.
   - cbn [bind]. apply rsi_tail; try assumption.
-    + apply len_push_notfull; assumption.
+    apply len_push_notfull; assumption.
 Qed.
 
 Lemma rsi_safe n : (1 <= n)%nat -> Safe (@rsi_core R ROps n) (fun _ => True) (rsi_I n).
 Proof.
   intros Hn. constructor.
   - eexists. split; [reflexivity|]. unfold rsi_I.
-    cbn [rsi_q rsi_gain rsi_loss rsi_oldref rsi_lastval rsi_out length rsiG rsiL last].
+    cbn [rsi_q rsi_out length].
     repeat split; try reflexivity; [lia | intros Hk; lia].
   - intros k s v Hi _. cbn [cstep rsi_core]. exact (rsi_step_ok n k s v Hn Hi).
   - intros k s _. cbn [clast rsi_core]. eauto.
@@ -542,7 +494,7 @@ Qed.
 
 Lemma rsi_ready n : (1 <= n)%nat -> ReadyAt (@rsi_core R ROps n) (rsi_I n) n.
 Proof.
-  intros Hn k s [_ [_ [_ [_ [Ho1 Ho2]]]]]. cbn [clast rsi_core]. split; intros Hk.
+  intros Hn k s [_ [Ho1 Ho2]]. cbn [clast rsi_core]. split; intros Hk.
   - rewrite (Ho1 Hk). reflexivity.
   - destruct (rsi_out s) as [y|] eqn:E; [eauto|]. exfalso. apply (Ho2 Hk). reflexivity.
 Qed.
